@@ -24,7 +24,7 @@ SPEC = {
         {"name": "group", "pkg": "./group", "search_cases": 8000, "timeout_quick": 600},
         {"name": "groupsched", "pkg": "./groupsched", "search_cases": 6000, "timeout_quick": 240},
         # "contains every non-suppressed alert of that group known at flush time", across dispatcher restarts (engine sys of C01/C04/C05)
-        {"name": "sys", "pkg": "./sys", "search_cases": 4000, "quick_cases": 300, "timeout_quick": 90, "only": ["flush_lists_all", "no_orphan_live_group", "flush_sent_content"]},
+        {"name": "sys", "pkg": "./sys", "search_cases": 4000, "quick_cases": 300, "timeout_quick": 90, "only": ["flush_lists_all", "no_orphan_live_group", "flush_sent_content", "refire_after_end_starts_anew"]},
         # the alerts the dispatcher groups are the ones POST /api/v2/alerts + mem.Alerts.Put store (C13's engine): an empty-valued label would
         # split a group (group_by sees `zone=""` next to no zone), a re-fire merged into the resolved episode would re-create its group without group_wait
         {"name": "ingest", "pkg": "./ingest", "search_cases": 15000, "quick_cases": 1500, "only": ["removeEmpty_spec", "refire_after_end_starts_anew"]},
